@@ -34,92 +34,151 @@ def run(rep, tier):
     rep.units = units
     RP = T + "RangeParser::"
 
-    # ---------------------------------------------------------------- R18.1 / R18.2
+    # ---------------------------------------------------------------- R18.1 / R18.2 / R18.3 (parser side)
+    # ParseBlock and operator++ touch the numbers only through integer arithmetic and comparisons: both are folded (local helpers
+    # and methods of the class inlined) and decided for one representative of every ordering that matters.
+    from vsa.cases import executes, decide, resolve_ite, ites
+    from sympy.core.function import AppliedUndef
+    same_class = lambda q, g_: bool(g_.j.get("internal")) or q.startswith(RP)
     pb = F.one(RP + "ParseBlock")
     rep.analysed(pb)
-    g = CFG(pb)
-    push = [n for n in pb.walk() if n.get("k") == "mcall" and (n.get("callee") or "").endswith("::push_back") and show(n["obj"]) == "blocks_"]
+    fo = Fold(pb, opaque_types=r"std::vector<", inline=same_class, record_calls=r"::push_back$", snap=r"::push_back$").run()
+    push = [e for e in fo.events if e["kind"] == "call" and "blocks_" in str(e["obj"])]
     if len(push) != 1:
-        raise AnalysisBroken("ParseBlock: blocks_.push_back not found")
+        raise AnalysisBroken("ParseBlock: expected one blocks_.push_back, found %d" % len(push))
     P = push[0]
-    zero = [n for n in pb.walk() if n.get("k") == "binop" and n["op"] in ("==", "!=") and
-            {nows(show(n["lhs"])), nows(show(n["rhs"]))} == {"block.stride_", "0"}]
-    ok = False
-    for z in zero:
-        want = (z["op"] == "!=")        # push only if stride != 0
-        if g.edge_required(z["id"], want, P["id"]) is True:
-            # and the other edge throws
-            ok = True
-    rep.check(ok, "R18.1", "zero-stride", "stride == 0 -> throw before the block is stored",
-              "RangeParser::ParseBlock stores a block whose stride is 0: iterating it never advances (endless loop)", pb.loc(P), sample=True)
-    fo = Fold(pb, opaque_types=r"std::vector<").run()
-    b_, s_, e_ = S("block.begin_"), S("block.stride_"), S("block.end_")
-    env = fo.final_env
+    conds_ = getattr(fo, "conds", {})
 
-    def field(name):
-        return env.get(("field", "block." + name)) if ("field", "block." + name) in env else None
-    # validity comparison: a throw guarded by (begin*stride > end*stride)
-    valid = None
-    for gset in fo.throws:
-        c, pol, _ = gset[-1]
-        if isinstance(c, tuple) and c[0] in (">", "<", ">=", "<=") and pol:
-            valid = c
-    ok, got = False, "no validity comparison found"
-    cmp_nodes = [n for n in pb.walk() if n.get("k") == "binop" and n["op"] in (">", "<") and "begin_" in show(n) and "end_" in show(n)]
-    if cmp_nodes:
-        c = cmp_nodes[0]
-        l = Fold(pb).ev(c["lhs"], {})
-        r_ = Fold(pb).ev(c["rhs"], {})
-        got = "%s %s %s" % (l, c["op"], r_)
-        if c["op"] == ">":
-            ok = is_zero(l - b_ * s_) and is_zero(r_ - e_ * s_)
-        else:
-            ok = is_zero(r_ - b_ * s_) and is_zero(l - e_ * s_)
-        ok = ok and g.edge_required(c["id"], False, P["id"]) is True
-    rep.check(ok, "R18.2", "validity", "accept iff begin*stride <= end*stride", "ParseBlock validity test is %s (rejecting edge must lead away from the store)" % got, pb.loc(), sample=True)
-    inc = F.one(RP + "iterator::operator++")
-    rep.analysed(inc)
-    cmps = [n for n in inc.walk() if n.get("k") == "binop" and n["op"] in (">", "<", ">=", "<=") and "current_" in show(n)]
-    ok, got = False, "no end test found"
-    if len(cmps) == 1:
-        c = cmps[0]
-        fo2 = Fold(inc)
-        l, r_ = fo2.ev(c["lhs"], {}), fo2.ev(c["rhs"], {})
-        cur, st, en = S("current_"), S("deref(block_).stride_"), S("deref(block_).end_")
-        names = {str(x) for x in (l.free_symbols | r_.free_symbols)}
-        stn = [x for x in (l.free_symbols | r_.free_symbols) if str(x).endswith("stride_")]
-        enn = [x for x in (l.free_symbols | r_.free_symbols) if str(x).endswith("end_")]
-        got = "%s %s %s" % (l, c["op"], r_)
-        if len(stn) == 1 and len(enn) == 1:
-            if c["op"] == ">":
-                ok = is_zero(l - cur * stn[0]) and is_zero(r_ - enn[0] * stn[0])
-            elif c["op"] == "<":
-                ok = is_zero(r_ - cur * stn[0]) and is_zero(l - enn[0] * stn[0])
-        elif len(enn) == 1 and not stn:
-            got += "  (the sign of the stride is ignored: a descending range accepted by ParseBlock stops after its first element)"
-    rep.check(ok, "R18.2", "termination", "leave the block iff current*stride > end*stride (same predicate as the validity test)",
-              "RangeParser::iterator::operator++ end test is %s; ParseBlock accepts begin*stride <= end*stride, so the two disagree for negative strides" % got, inc.loc(), sample=True)
-    adv = [n for n in inc.walk() if n.get("k") == "assign" and n["op"] == "+=" and nows(show(n["lhs"])) == "current_"]
-    rep.check(len(adv) == 1 and nows(show(adv[0]["rhs"])).endswith("stride_") and (not cmps or CFG(inc).dominates(adv[0]["id"], cmps[0]["id"])), "R18.2", "advance",
-              "current_ += stride before the end test", "operator++ does not advance current_ by the block's stride before testing the end", inc.loc())
+    def all_atoms(e):
+        out = set()
 
-    # ---------------------------------------------------------------- R18.3
-    st = [e for e in fo.events if e["kind"] == "store" and e["target"].startswith("block.")]
-    roles = {}
-    for e in st:
-        gs = [x for x in guard_strs(fo, e["guards"]) if re.match(r"^\(size\(toks\) == \d\)$", x)]
-        roles.setdefault(gs[-1] if gs else "always", {})[e["target"].split(".")[-1]] = str(e["value"])
-    tok = lambda k: "stoi(at(toks, %d), 0, 10)" % k
-    want = {"always": {"stride_": "1", "begin_": tok(0), "end_": tok(0)}, "(size(toks) == 2)": {"end_": tok(1)},
-            "(size(toks) == 3)": {"stride_": tok(1), "end_": tok(2)}}
-    got = {k: {kk: vv for kk, vv in v.items()} for k, v in roles.items()}
-    okr = all(got.get(k, {}).get(kk) == vv or (kk in ("begin_", "end_") and k == "always" and got.get(k, {}).get(kk) == tok(0)) for k, v in want.items() for kk, vv in v.items())
-    rep.check(okr, "R18.3", "parser-roles", "1 token: b; 2 tokens: b:e; 3 tokens: b:s:e", "ParseBlock token roles are %s" % got, pb.loc(), sample=True)
-    cnt = [n for n in pb.walk() if n.get("k") == "binop" and n["op"] == "||" and "toks.size()" in show(n)]
-    rep.check(bool(cnt) and nows(show(cnt[0])) in ("((toks.size()>3)||(toks.size()<1))", "((toks.size()<1)||(toks.size()>3))"), "R18.3", "token-count",
-              "1 to 3 ':' tokens accepted", "ParseBlock token-count test is %s" % (show(cnt[0]) if cnt else "?"), pb.loc())
+        def rec(c):
+            if isinstance(c, tuple):
+                for x in c:
+                    rec(x)
+            elif hasattr(c, "atoms"):
+                out.update(c.atoms(AppliedUndef))
+        for g_ in e["guards"]:
+            rec(g_[0])
+        for gl in e.get("not", []):
+            for g_ in gl:
+                rec(g_[0])
+        for c_ in conds_.values():
+            rec(c_)
+        return out
+    ats = all_atoms(P)
+    sizes = [a_ for a_ in ats if str(a_.func) == "size"]
+    toks = {}
+    for a_ in ats:
+        if str(a_.func) == "stoi" and str(getattr(a_.args[0], "func", "")) == "at" and getattr(a_.args[0].args[1], "is_Integer", False):
+            toks[int(a_.args[0].args[1])] = a_
+    if len(sizes) != 1 or not toks:
+        raise AnalysisBroken("ParseBlock: token count / token atoms not found (sizes %s, tokens %s)" % (sizes, sorted(toks)))
+    # the stored block (begin, end, stride)
+    arg = P["args"][0]
+    if str(getattr(arg, "func", "")) == "ctor" and len(arg.args) >= 3:
+        ctor = [f_ for f_ in F.funcs if f_.qname.endswith("RangeParser::block_t::block_t") and len(f_.j["params"]) == 3]
+        order = ["begin_", "end_", "stride_"]
+        if ctor:
+            pn = [p_["decl"] for p_ in ctor[0].j["params"]]
+            m_ = {}
+            for ci in ctor[0].j.get("ctor_inits", []) or []:
+                r0 = [x for x in walk(ci.get("init")) if x.get("k") == "ref" and x.get("decl") in pn]
+                if ci.get("field") and r0:
+                    m_[pn.index(r0[0]["decl"])] = ci["field"].split("::")[-1]
+            if len(m_) == 3:
+                order = [m_[0], m_[1], m_[2]]
+        stored = dict(zip(order, arg.args[:3]))
+    else:
+        env_ = P.get("env") or {}
+        an = unwrap(P["node"]["args"][0])
+        while an.get("k") in ("cast", "construct") and (an.get("sub") is not None or len(an.get("args", [])) == 1):
+            an = unwrap(an["sub"] if an.get("sub") is not None else an["args"][0])
+        nm = an.get("name") if an.get("k") == "ref" else str(arg)
+        stored = {k_: env_.get(("field", "%s.%s" % (nm, k_))) for k_ in ("begin_", "end_", "stride_")}
+    if any(v is None for v in stored.values()):
+        raise AnalysisBroken("ParseBlock: the stored block's begin/end/stride could not be folded (%s)" % stored)
+
+    def run_case(n, vals):
+        sub = {sizes[0]: sp.Integer(n)}
+        for k_, v_ in zip(range(3), vals):
+            if k_ in toks:
+                sub[toks[k_]] = sp.Integer(v_)
+        ex = executes(P, sub, None, None, conds_)
+        trip = None
+        if ex:
+            trip = []
+            for k_ in ("begin_", "end_", "stride_"):
+                v = resolve_ite(stored[k_], lambda cs: decide(conds_.get(cs), sub, None, None, conds_) if cs in conds_ else None) if hasattr(stored[k_], "args") else stored[k_]
+                v = v.xreplace(sub) if hasattr(v, "xreplace") else v
+                trip.append(v)
+        return ex, trip
+    cases_ = [  # (token count, token values, accepted?, (begin, end, stride))
+        (0, (), False, None), (4, (1, 1, 3), False, None),
+        (1, (7,), True, (7, 7, 1)), (1, (-3,), True, (-3, -3, 1)),
+        (2, (1, 2), True, (1, 2, 1)), (2, (2, 2), True, (2, 2, 1)), (2, (3, 2), False, None), (2, (-5, -7), False, None),
+        (3, (1, 1, 3), True, (1, 3, 1)), (3, (3, -1, 1), True, (3, 1, -1)), (3, (2, 3, 2), True, (2, 2, 3)), (3, (1, 2, 6), True, (1, 6, 2)),
+        (3, (1, 0, 3), False, None), (3, (3, 0, 3), False, None),
+        (3, (3, 1, 1), False, None), (3, (1, -1, 3), False, None), (3, (5, 4, 3), False, None), (3, (3, -4, 5), False, None), (3, (-6, -6, -5), False, None),
+    ]
+    for n_, vals_, acc_, want_ in cases_:
+        ex, trip = run_case(n_, vals_)
+        txt = ":".join(str(v) for v in vals_) or "(empty)"
+        zero = n_ == 3 and vals_[1] == 0
+        rid = "R18.1" if zero else ("R18.3" if (acc_ or n_ in (0, 4)) else "R18.2")
+        key = ("zero-stride|" if zero else "accepts|" if acc_ else "rejects|") + txt + ("|%d-tokens" % n_ if n_ in (0, 4) else "")
+        if ex is None:
+            raise AnalysisBroken("ParseBlock: cannot decide whether '%s' is stored" % txt)
+        ok = (ex is True) == acc_ and (not acc_ or [sp.simplify(x) for x in trip] == [sp.Integer(want_[0]), sp.Integer(want_[1]), sp.Integer(want_[2])])
+        bad = ("'%s' is %s" % (txt, "stored as (begin, end, stride) = %s" % (trip,) if ex else "rejected")) + \
+              ("; a block with stride 0 never advances (endless loop)" if zero else "" if acc_ else "; the iterator leaves a block only when current*stride > end*stride, so this block is not a closed interval" if n_ == 3 else "")
+        rep.check(ok, rid, key, "'%s' -> %s" % (txt, "begin=%s end=%s stride=%s" % want_ if acc_ else "rejected"), "RangeParser::ParseBlock: " + bad, pb.loc(P["node"]),
+                  sample=(txt in ("1:0:3", "3:-1:1", "5:4:3")))
     split = [n for n in pb.walk() if n.get("k") == "construct" and "Tokenizer" in (n.get("type") or "") and len(n.get("args", [])) >= 2]
     rep.check(any(lit_str(n["args"][1]) == ":" for n in split), "R18.3", "block-separator", "blocks are split at ':'", "ParseBlock does not tokenise at ':'", pb.loc())
+
+    inc = F.one(RP + "iterator::operator++")
+    rep.analysed(inc)
+    fi = Fold(inc, inline=same_class, opaque_types=r"__normal_iterator|std::vector<").run()
+    cur0 = S("current_")
+    curv = fi.exit_env().get(("field", "current_"))
+    conds2 = getattr(fi, "conds", {})
+    blk = [e for e in fi.events if e["kind"] == "store" and e["target"].replace(" ", "") in ("block_",)] or \
+          [e for e in fi.events if e["kind"] == "store" and "block_" in e["target"] and "current_" not in e["target"]]
+    ats2 = set()
+    for c_ in list(conds2.values()) + [g_[0] for e in fi.events for g_ in e["guards"]]:
+        def rec2(c):
+            if isinstance(c, tuple):
+                for x in c:
+                    rec2(x)
+            elif hasattr(c, "free_symbols"):
+                ats2.update(c.free_symbols)
+        rec2(c_)
+    if curv is not None and hasattr(curv, "free_symbols"):
+        ats2 |= curv.free_symbols
+    st_s = [x for x in ats2 if str(x).endswith("stride_")]
+    en_s = [x for x in ats2 if str(x).endswith("end_")]
+    if curv is None or len(st_s) != 1 or len(en_s) != 1 or len(blk) != 1:
+        raise AnalysisBroken("operator++: current_/stride_/end_/block advance not found (stride %s, end %s, block stores %d)" % (st_s, en_s, len(blk)))
+    for cur_, s_, e_, leaves in ((1, 1, 3, False), (2, 1, 3, False), (3, 1, 3, True), (3, -1, 1, False), (2, -1, 1, False), (1, -1, 1, True), (1, 2, 2, True), (1, 2, 3, False),
+                                (2, 3, 2, True), (-2, -3, -8, False), (-5, -3, -8, False), (-8, -3, -8, True)):
+        sub = {cur0: sp.Integer(cur_), st_s[0]: sp.Integer(s_), en_s[0]: sp.Integer(e_)}
+        ex = executes(blk[0], sub, None, None, conds2)
+        if ex is None:
+            raise AnalysisBroken("operator++: cannot decide whether the iterator leaves the block for current=%s stride=%s end=%s" % (cur_, s_, e_))
+        okc = True
+        nv = None
+        if not leaves and ex is False:
+            nv = resolve_ite(curv, lambda cs: decide(conds2.get(cs), sub, None, None, conds2) if cs in conds2 else None)
+            nv = nv.xreplace(sub) if hasattr(nv, "xreplace") else nv
+            okc = not ites(nv) and sp.simplify(nv - (cur_ + s_)) == 0
+        rep.check((ex is True) == leaves and okc, "R18.2", "termination|cur=%s,stride=%s,end=%s" % (cur_, s_, e_),
+                  "from %s by %s up to %s: %s" % (cur_, s_, e_, "moves on to the next block" if leaves else "stays in the block at %s" % (cur_ + s_)),
+                  "RangeParser::iterator::operator++ at current=%s, stride=%s, end=%s %s; ParseBlock accepts begin*stride <= end*stride, so the block must be left exactly when (current+stride)*stride > end*stride" % (
+                      cur_, s_, e_, ("stays in the block" if not ex else "leaves the block") if (ex is True) != leaves else "sets current_ to %s" % nv), inc.loc(),
+                  sample=((cur_, s_, e_) in ((3, -1, 1), (1, -1, 1))))
+
+    # ---------------------------------------------------------------- R18.3 (printer side)
     pr = [f for f in F.find(T + "operator<<") if "RangeParser" in f.j["sig"]]
     if len(pr) != 1:
         rep.broken("R18.3", "RangeParser printer not found")
